@@ -74,6 +74,11 @@ type emitEval struct {
 	// LoopBody: the statements given to run are one iteration of a loop; an unlabelled continue ends the run (Cont).
 	LoopBody bool
 	Cont     bool
+	// Effect, when set, is told about every call made for effect (an expression statement), in order, with the
+	// environment of that point: a rule that follows what is written to a stream records its events here.
+	Effect func(call *ast.CallExpr, env evEnv)
+	// InnerLoop, when set, is asked about a loop statement; true means the hook accounted for it and the run goes on.
+	InnerLoop func(s ast.Stmt, env evEnv) bool
 }
 
 var emitEvalDecls = map[*packages.Package]map[*types.Func]*ast.FuncDecl{}
@@ -393,8 +398,12 @@ func (ev *emitEval) follow(call *ast.CallExpr, fd *ast.FuncDecl, env evEnv) ([]e
 func (ev *emitEval) run(list []ast.Stmt, env evEnv) (rets []evVal, returned bool) {
 	for _, s := range list {
 		switch x := s.(type) {
-		case *ast.ExprStmt, *ast.EmptyStmt, *ast.IncDecStmt, *ast.DeferStmt, *ast.GoStmt:
+		case *ast.ExprStmt:
 			// calls for effect (logging, fatal) do not change what is emitted into the tracked lists
+			if call, ok := x.X.(*ast.CallExpr); ok && ev.Effect != nil {
+				ev.Effect(call, env)
+			}
+		case *ast.EmptyStmt, *ast.IncDecStmt, *ast.DeferStmt, *ast.GoStmt:
 		case *ast.DeclStmt:
 			if gd, ok := x.Decl.(*ast.GenDecl); ok && gd.Tok == token.VAR {
 				for _, sp := range gd.Specs {
@@ -564,6 +573,9 @@ func (ev *emitEval) run(list []ast.Stmt, env evEnv) (rets []evVal, returned bool
 			}
 			return out, true
 		case *ast.ForStmt, *ast.RangeStmt:
+			if ev.InnerLoop != nil && ev.InnerLoop(s, env) {
+				continue
+			}
 			ev.undecided(s.Pos(), "loop")
 			return nil, true
 		default:
